@@ -1,14 +1,27 @@
 /-
   QEModel.C14 — one payoff convention across all views of a game.
-  Mirrors quantecon/game_theory/normal_form_game.py (Player, NormalFormGame),
-  game_converters.py (GAM dump / parse: order of the numbers), polymatrix_game.py
-  (get_player / to_nfg: broadcast sum), logitdyn.py (constructor: read-only).
+  Mirrors quantecon/game_theory/normal_form_game.py:
+    Player.__init__ (shape checks), delete_action, payoff_vector (reduce_last_player: take / dot),
+    is_best_response, best_response (np.where(v >= v.max() - tol), perturbation not in place),
+    is_dominated (no-opponent branch; pure-domination test; certificate check for the LP value),
+    NormalFormGame.__init__ (Players / action counts / square matrix / payoff profile array),
+    payoff_profile_array, __getitem__, __setitem__, delete_action (scalar and array_like), is_nash
+    (N = 1, N = 2, N >= 3 branches);
+  game_converters.py: GAMWriter._dump / GAMReader._parse (order of the numbers, not their text);
+  polymatrix_game.py: PolymatrixGame.get_player / to_nfg (broadcast sum);
+  logitdyn.py (and the other dynamics constructors): read-only, modelled as the identity.
 
   An n-d array is `Arr α` = shape + flat C-order data. Every NumPy operation is a
   `tab newShape (fun idx => old.get (index map idx))`; the in-place write of
   `__setitem__` is `List.set` on the flat data. A game is the list of its
   players' arrays (player i's array has its own action first, then the others in
-  cyclic order — shape `rotL i nums`).
+  cyclic order — shape `rotL i nums`). The op state machine `step`/`run` executes whole call
+  histories; `handle` prints the result of every call and all stored arrays after it.
+
+  Parameters (not modelled): dtype (payoffs are exact rationals; int/float distinction and
+  NumPy casting on assignment), the decimal text of GAM numbers (`np.array2string`), `lstsq`
+  in `PolymatrixGame.from_nf`, the LP solver behind `is_dominated` (`minmax` / `linprog`;
+  the driver checks an exact certificate instead), random tie breaking.
 -/
 import QEModel.Base
 namespace QE.C14
@@ -37,7 +50,7 @@ def inBounds : List Nat → List Nat → Bool
 structure Arr (α : Type) where
   shape : List Nat
   data : List α
-deriving Repr, BEq
+deriving Repr, BEq, DecidableEq
 
 instance {α} : Inhabited (Arr α) := ⟨⟨[], []⟩⟩
 
@@ -73,6 +86,12 @@ def bump (ax a : Nat) (idx : List Nat) : List Nat :=
 def deleteAxis [Zero α] (A : Arr α) (ax a : Nat) : Arr α :=
   tab (A.shape.set ax (A.shape.getD ax 0 - 1)) (fun idx => A.get (bump ax a idx))
 
+/-- `np.delete(A, as, axis)` for a list of in-range indices (a set: duplicates are immaterial):
+    the surviving positions along the axis keep their order -/
+def deleteMany [Zero α] (A : Arr α) (ax : Nat) (as : List Nat) : Arr α :=
+  let keep := (List.range (A.shape.getD ax 0)).filter fun k => !as.contains k
+  tab (A.shape.set ax keep.length) (fun idx => A.get (idx.set ax (keep.getD (idx.getD ax 0) 0)))
+
 /-- `A.ravel(order='F')` -/
 def ravelF [Zero α] (A : Arr α) : List α :=
   (allIdx A.shape.reverse).map fun r => A.get r.reverse
@@ -100,7 +119,7 @@ deriving Repr
 
 inductive Err where
   | index | value | type | axis
-deriving Repr, BEq
+deriving Repr, BEq, DecidableEq
 
 def Err.show : Err → String
   | .index => "ERR:IndexError"
@@ -181,7 +200,7 @@ end player
 
 structure Game (α : Type) where
   players : List (Arr α)
-deriving Repr
+deriving Repr, DecidableEq
 
 namespace Game
 variable {α : Type} [Zero α]
@@ -253,6 +272,19 @@ def deleteAction (g : Game α) (pidx : Int) (a : Nat) : Except Err (Game α) := 
       else Except.error Err.index
   ofPlayers ps
 
+/-- `delete_action(player_idx, actions)` with an array_like of (normalised) actions -/
+def deleteActions (g : Game α) (pidx : Int) (as : List Nat) : Except Err (Game α) := do
+  let ps ← (List.range g.N).mapM fun i =>
+    let A := g.player i
+    match normAxis (pidx - i) A.shape.length with
+    | none => Except.error Err.axis
+    | some ax =>
+      if as.all fun a => decide (a < A.shape.getD ax 0) then
+        let B := A.deleteMany ax as
+        if playerOk B then Except.ok B else Except.error Err.value
+      else Except.error Err.index
+  ofPlayers ps
+
 /-- opponents' actions as seen by player `i` in `is_nash` -/
 def oppsOf (N i : Nat) {β : Type} (prof : List β) : List β :=
   if N = 2 then (prof.drop (1 - i)).take 1
@@ -317,6 +349,7 @@ inductive Op (α : Type) where
   | get (prof : List Int)
   | set (prof : List Int) (vals : List α)
   | del (pidx : Int) (action : Int)
+  | delm (pidx : Int) (actions : List Int)
   | pv (i : Nat) (opps : List (Act α))
   | br (i : Nat) (opps : List (Act α)) (tol : α) (pert : Option (List α))
   | isbr (i : Nat) (own : Act α) (opps : List (Act α)) (tol : α)
@@ -398,6 +431,17 @@ def step (g : Game α) : Op α → Game α × Out α
         match g.deleteAction pidx' a with
         | .ok g' => (g', .none)
         | .error e => (g, .err e)
+  | .delm pidx actions =>
+    let pidx' : Int := if -(g.N : Int) ≤ pidx ∧ pidx < 0 then pidx + g.N else pidx
+    match Game.normAxis pidx' g.N with
+    | none => (g, .err .axis)
+    | some ax =>
+      match actions.mapM (normIdx ((g.player 0).shape.getD ax 0)) with
+      | none => (g, .err .index)
+      | some as =>
+        match g.deleteActions pidx' as with
+        | .ok g' => (g', .none)
+        | .error e => (g, .err e)
   | .pv i opps =>
     match payoffVectorC (g.player i) opps with
     | .ok v => (g, .vals v.data)
@@ -463,6 +507,7 @@ def parseOp? (s : String) : Option (Op Rat) :=
     let v ← parseList? parseRat? v
     pure (Op.set p v)
   | ["del", p, a] => do pure (Op.del (← parseInt? p) (← parseInt? a))
+  | ["delm", p, a] => do pure (Op.delm (← parseInt? p) (← parseList? parseInt? a))
   | ["pv", i, o] => do pure (Op.pv (← parseNat? i) (← parseActs? o))
   | ["br", i, o, t, pert] => do
     pure (Op.br (← parseNat? i) (← parseActs? o) (← parseRat? t) (← parseOptRats? pert))
